@@ -259,6 +259,7 @@ func Verif_C11_named_kinds() {
 }
 
 // Scope(\_SB_) { Device(DEV) { Name(A, b) } }  Scope(\_SB_.DEV) { Name(B, b) }
+//
 //verif:split 3
 func Verif_C11_scope_abs() {
 	vfNames = nil
@@ -302,6 +303,7 @@ func Verif_C11_scope_abs() {
 }
 
 // Method(CAL1,0){ FOO(a, b) }  Method(FOO, 2){}  Method(CAL2,0){ FOO(c, d) }: calls before and after the declaration
+//
 //verif:split 3
 func Verif_C11_method_calls() {
 	vfNames = nil
